@@ -79,7 +79,21 @@ COVER = {
     "discopy.quantum.circuit:Circuit.is_mixed": 0.9,
     "discopy.quantum.circuit:Circuit.init_and_discard": 0.9,
 }
-MIN_EVALS = {}
+MIN_EVALS = {
+    "quick": {"superoperator-equals-cq_sim": 400, "doubling": 60,
+              "dagger-evaluates-to-adjoint": 180, "discard-is-marginal": 170,
+              "adjoint-measure-encode": 100, "adjoint-discard-mixedstate": 300,
+              "born-rule": 250, "born-marginal": 25, "trace-preserving": 90,
+              "get_counts-equals-evaluation": 150,
+              "measure-equals-evaluation": 90, "default-route": 350},
+    "thorough": {"superoperator-equals-cq_sim": 8000, "doubling": 1200,
+                 "dagger-evaluates-to-adjoint": 3500,
+                 "discard-is-marginal": 3300,
+                 "adjoint-measure-encode": 2000,
+                 "adjoint-discard-mixedstate": 6000, "born-rule": 5000,
+                 "born-marginal": 500, "trace-preserving": 1800,
+                 "get_counts-equals-evaluation": 3000,
+                 "measure-equals-evaluation": 1800, "default-route": 7000}}
 L1 = False     # CQMap.tensor builds ~10^3 small diagrams per evaluation; the hook
                # would take 40 % of the time of a check whose subject is numeric
 ASSUMPTIONS = [
